@@ -76,6 +76,7 @@ package signer
 //@ ensures [failclosed] forall i int :: 0 <= i && i < len(result0.Responses) ==> ((result0.Responses[i].State == pb.ResponseState_SUCCEEDED) <==> (result0.Responses[i].Signature != nil))
 //@ ensures [oneeach] req != nil && len(req.Requests) > 0 ==> len(result0.Responses) == len(req.Requests)
 //@ hint-after before:Multisign@1 [wire-data] forall j int :: 0 <= j && j < len(req.Requests) ==> reqData[j] != nil && (req.Requests[j] != nil ==> reqData[j].Domain == req.Requests[j].Domain && reqData[j].Data == req.Requests[j].Data)
+//@ hint-after before:Multisign@1 [wire-id] forall j int :: 0 <= j && j < len(req.Requests) ==> (req.Requests[j] != nil ==> accountNames[j] == (if hastype(req.Requests[j].Id, "*pb.SignRequest_Account") then unbox(req.Requests[j].Id, "*pb.SignRequest_Account").Account else "") && (hastype(req.Requests[j].Id, "*pb.SignRequest_PublicKey") ==> pubKeys[j] == unbox(req.Requests[j].Id, "*pb.SignRequest_PublicKey").PublicKey) && (!hastype(req.Requests[j].Id, "*pb.SignRequest_PublicKey") ==> pubKeys[j] == nil))
 //@ loop #1
 //@ invariant [range] 0 <= _n && _n <= len(req.Requests) && res != nil && fresh(res) && len(res.Responses) == len(req.Requests) && fresh(res.Responses)
 //@ invariant [made] forall j int :: 0 <= j && j < _n ==> res.Responses[j] != nil && fresh(res.Responses[j]) && allocated(res.Responses[j]) && res.Responses[j].State == pb.ResponseState_UNKNOWN && res.Responses[j].Signature == nil
@@ -86,6 +87,7 @@ package signer
 //@ invariant [range] 0 <= _n && _n <= len(req.Requests) && len(accountNames) == len(req.Requests) && len(pubKeys) == len(req.Requests) && len(reqData) == len(req.Requests) && fresh(accountNames) && fresh(pubKeys) && fresh(reqData)
 //@ invariant [domain] forall j int :: 0 <= j && j < _n ==> reqData[j] != nil && (reqData[j].Domain == nil || cap(reqData[j].Domain) >= 4)
 //@ invariant [rest] forall j int :: _n <= j && j < len(reqData) ==> reqData[j] == nil
+//@ invariant [wire-id] forall j int :: 0 <= j && j < _n ==> (req.Requests[j] != nil ==> accountNames[j] == (if hastype(req.Requests[j].Id, "*pb.SignRequest_Account") then unbox(req.Requests[j].Id, "*pb.SignRequest_Account").Account else "") && (hastype(req.Requests[j].Id, "*pb.SignRequest_PublicKey") ==> pubKeys[j] == unbox(req.Requests[j].Id, "*pb.SignRequest_PublicKey").PublicKey) && (!hastype(req.Requests[j].Id, "*pb.SignRequest_PublicKey") ==> pubKeys[j] == nil))
 //@ invariant [wire-data] forall j int :: 0 <= j && j < _n ==> fresh(reqData[j]) && allocated(reqData[j]) && (req.Requests[j] != nil ==> reqData[j].Domain == req.Requests[j].Domain && reqData[j].Data == req.Requests[j].Data)
 //@ loop #4
 //@ invariant [range] 0 <= _n && _n <= len(results)
@@ -106,6 +108,7 @@ package signer
 //@ ensures [failclosed] forall i int :: 0 <= i && i < len(result0.Responses) ==> ((result0.Responses[i].State == pb.ResponseState_SUCCEEDED) <==> (result0.Responses[i].Signature != nil))
 //@ ensures [oneeach] req != nil && len(req.Requests) > 0 ==> len(result0.Responses) == len(req.Requests)
 //@ hint-after before:SignBeaconAttestations@1 [wire-data] forall j int :: 0 <= j && j < len(req.Requests) ==> reqData[j] != nil && (req.Requests[j] != nil && req.Requests[j].Data != nil && req.Requests[j].Data.Source != nil && req.Requests[j].Data.Target != nil ==> reqData[j].Domain == req.Requests[j].Domain && reqData[j].Slot == req.Requests[j].Data.Slot && reqData[j].CommitteeIndex == req.Requests[j].Data.CommitteeIndex && reqData[j].BeaconBlockRoot == req.Requests[j].Data.BeaconBlockRoot && reqData[j].Source != nil && reqData[j].Target != nil && reqData[j].Source.Epoch == req.Requests[j].Data.Source.Epoch && reqData[j].Source.Root == req.Requests[j].Data.Source.Root && reqData[j].Target.Epoch == req.Requests[j].Data.Target.Epoch && reqData[j].Target.Root == req.Requests[j].Data.Target.Root)
+//@ hint-after before:SignBeaconAttestations@1 [wire-id] forall j int :: 0 <= j && j < len(req.Requests) ==> (req.Requests[j] != nil ==> accountNames[j] == (if hastype(req.Requests[j].Id, "*pb.SignBeaconAttestationRequest_Account") then unbox(req.Requests[j].Id, "*pb.SignBeaconAttestationRequest_Account").Account else "") && (hastype(req.Requests[j].Id, "*pb.SignBeaconAttestationRequest_PublicKey") ==> pubKeys[j] == unbox(req.Requests[j].Id, "*pb.SignBeaconAttestationRequest_PublicKey").PublicKey) && (!hastype(req.Requests[j].Id, "*pb.SignBeaconAttestationRequest_PublicKey") ==> pubKeys[j] == nil))
 //@ loop #1
 //@ invariant [range] 0 <= _n && _n <= len(req.Requests) && res != nil && fresh(res) && len(res.Responses) == len(req.Requests) && fresh(res.Responses)
 //@ invariant [made] forall j int :: 0 <= j && j < _n ==> res.Responses[j] != nil && fresh(res.Responses[j]) && allocated(res.Responses[j]) && res.Responses[j].State == pb.ResponseState_UNKNOWN && res.Responses[j].Signature == nil
@@ -116,6 +119,7 @@ package signer
 //@ invariant [range] 0 <= _n && _n <= len(req.Requests) && len(accountNames) == len(req.Requests) && len(pubKeys) == len(req.Requests) && len(reqData) == len(req.Requests) && fresh(accountNames) && fresh(pubKeys) && fresh(reqData)
 //@ invariant [domain] forall j int :: 0 <= j && j < _n ==> reqData[j] != nil && (reqData[j].Domain == nil || cap(reqData[j].Domain) >= 4)
 //@ invariant [rest] forall j int :: _n <= j && j < len(reqData) ==> reqData[j] == nil
+//@ invariant [wire-id] forall j int :: 0 <= j && j < _n ==> (req.Requests[j] != nil ==> accountNames[j] == (if hastype(req.Requests[j].Id, "*pb.SignBeaconAttestationRequest_Account") then unbox(req.Requests[j].Id, "*pb.SignBeaconAttestationRequest_Account").Account else "") && (hastype(req.Requests[j].Id, "*pb.SignBeaconAttestationRequest_PublicKey") ==> pubKeys[j] == unbox(req.Requests[j].Id, "*pb.SignBeaconAttestationRequest_PublicKey").PublicKey) && (!hastype(req.Requests[j].Id, "*pb.SignBeaconAttestationRequest_PublicKey") ==> pubKeys[j] == nil))
 //@ invariant [wire-data] forall j int :: 0 <= j && j < _n ==> fresh(reqData[j]) && allocated(reqData[j]) && fresh(reqData[j].Source) && fresh(reqData[j].Target) && allocated(reqData[j].Source) && allocated(reqData[j].Target) && reqData[j] != nil && reqData[j].Source != nil && reqData[j].Target != nil && (req.Requests[j] != nil && req.Requests[j].Data != nil && req.Requests[j].Data.Source != nil && req.Requests[j].Data.Target != nil ==> reqData[j].Domain == req.Requests[j].Domain && reqData[j].Slot == req.Requests[j].Data.Slot && reqData[j].CommitteeIndex == req.Requests[j].Data.CommitteeIndex && reqData[j].BeaconBlockRoot == req.Requests[j].Data.BeaconBlockRoot && reqData[j].Source != nil && reqData[j].Target != nil && reqData[j].Source.Epoch == req.Requests[j].Data.Source.Epoch && reqData[j].Source.Root == req.Requests[j].Data.Source.Root && reqData[j].Target.Epoch == req.Requests[j].Data.Target.Epoch && reqData[j].Target.Root == req.Requests[j].Data.Target.Root)
 //@ loop #4
 //@ invariant [range] 0 <= _n && _n <= len(results)
